@@ -314,15 +314,20 @@ class C17(Spec):
                  "the real headers under a baton scheduler, ASan and life-time tracking of the shared state")
     level_text = ("Lean 4 theorems over a micro-step model of shared_future (one step per atomic operation of future.h/awaiter.h as used by shared_future.h; handle copy/drop are atomic "
                   "reference-count steps) for any number of handle threads, any programs of copy/drop/peek/await (coroutine, blocking, callback), every construction path "
-                  "(both constructors, get_promise() late initialisation, operator<<, ready-made factories), every resolver kind and every schedule: all observations equal the single "
-                  "result, every awaiter is resumed exactly once, the state is alive while pending whatever the handles do, is freed exactly once, is never accessed after the free, "
-                  "and the tracer is the last node of the chain. The model is tied to the headers by replaying generated and exhaustively enumerated schedules on the unmodified "
-                  "headers and diffing every operation line; oracles evaluate the statement on the implementation trace.")
+                  "(both constructors, get_promise() late initialisation, init_if_needed()+operator<<, ready-made factories), every resolver kind and every schedule, by induction "
+                  "over the schedule with a 42-clause invariant: all observations equal the single result, every awaiter is woken/observes at most once and exactly once at quiescence, "
+                  "a state where no thread can move is quiescent (no lost wake-up), the state is alive while pending whatever the handles do, is freed at most once and exactly once "
+                  "at quiescence, is never accessed after the free, the tracer is the bottom node of the chain, late initialisation does not crash. The model is tied to the headers by "
+                  "replaying generated and exhaustively enumerated schedules on the unmodified headers (baton scheduler, ASan/UBSan, life-time tracking of the make_shared block) and "
+                  "diffing every operation line; oracles evaluate the statement on the implementation trace.")
     level_note = ("trusted: Lean kernel; hand-written list-level model (intrusive `_next` links abstracted to a list; pointer-level safety of the walk is covered by ASan in the harness); "
-                  "std::shared_ptr as specified (count = number of live handles, last drop destroys; its counter is not a scheduling point); the baton shim (sequentially consistent "
-                  "interleavings only — memory orders are C03's); the life time of the state is observed through the sanitizer's malloc/free hooks. Two defects of the pinned commit are "
-                  "repaired by fix: commits and kept as as-is variants with `decide` witnesses: init_if_needed() tested the pointer the wrong way round (get_promise() on a "
-                  "default-constructed object dereferenced null) and operator<< did not wire the resolve tracer.")
+                  "std::shared_ptr as specified (count = number of live handles, last drop destroys; its counter is not a scheduling point; the transient references inside charge() — "
+                  "the by-value parameter and `_ptr = ptr` before the CAS — are not modelled, the creator holds its own handle throughout); the baton shim (sequentially consistent "
+                  "interleavings only — memory orders are C03's); the life time of the state is observed through the sanitizer's malloc/free hooks. A change that keeps the behaviour "
+                  "but alters the sequence of atomic operations (e.g. dropping the pending() test before charge) breaks the step-for-step correspondence and is reported as "
+                  "`no-failing-input-found` after the thorough search. Two defects of the pinned commit are repaired by fix: commits and kept as as-is variants with `decide` "
+                  "witnesses: init_if_needed() tested the pointer the wrong way round (get_promise() on a default-constructed object dereferenced null) and operator<< did not wire "
+                  "the resolve tracer (state destroyed while pending once every handle was dropped).")
     trusted_base = ["model lean/CoclsModel/SharedFuture.lean tied to shared_future.h/future.h/awaiter.h by step-for-step replay (harness/h_shared_future.cpp, shim/verif_shim.h) against lean/Drivers/C17.lean",
                     "std::shared_ptr, C++20 coroutine machinery and libstdc++ as specified"]
     assumptions = ["every awaiter holds its own handle for as long as it waits (documented contract of shared_future)",
